@@ -6,6 +6,8 @@
  *             1 one of_set_available_symbols with the set of listed ESIs
  *             2 as 0, but the state is reported only after the LAST call (large codes: one S token instead of one per call)
  *             3 two of_set_available_symbols calls with cumulative tables: the first half of the listed ESIs, then all of them
+ *             4 the first half through of_decode_with_new_symbol, then ONE of_set_available_symbols with all of them (cumulative table)
+ *             5 of_set_available_symbols with the first half, then of_decode_with_new_symbol for each of the rest
  *     cbmode  0 no callback, 1 callback returns a buffer, 2 returns NULL, 3 alternates
  *     finish  0 no, 1 of_finish_decoding at the end
  *     role    2 decoder session is OF_DECODER, 3 OF_ENCODER_AND_DECODER
@@ -267,9 +269,16 @@ int main(void)
 			hl_setup = lib_blocks;
 			/* the source table before anything was submitted: every entry must be empty (or the call refused) */
 			{ int empty = 1; fetch_src_tab(dec, k); for (i = 0; i < (UINT32)k; i++) if (src_tab[i] || stale[i]) empty = 0; fprintf(out, " GI%d", empty); }
-			if (api == 0 || api == 2) {
+			if (api == 5) {
+				for (i = 0; i < (UINT32)nesi / 2; i++) { avail_tab[esis[i]] = recv_tab[esis[i]]; seen_esi[esis[i]] = 1; }
+				LIB_BEGIN(); st = of_set_available_symbols(dec, avail_tab); LIB_END();
+				if (nhl < MAXHL) hl[nhl++] = lib_blocks;
+				fprintf(out, " S%d%d", st, of_is_decoding_complete(dec) ? 1 : 0);
+				print_masks(dec, codec, k, n, 1);
+			}
+			if (api == 0 || api == 2 || api == 4 || api == 5) {
 				int worst = 0;
-				for (i = 0; i < (UINT32)nesi; i++) {
+				for (i = (api == 5 ? (UINT32)nesi / 2 : 0); i < (api == 4 ? (UINT32)nesi / 2 : (UINT32)nesi); i++) {
 					/* a duplicate arrives in ANOTHER buffer (a second packet) with the same content; the source table must keep reporting the
 					 * pointer that was supplied first (C10).  The buffer stays intact until the end: the API asks the application to keep
 					 * every submitted buffer available */
@@ -283,7 +292,8 @@ int main(void)
 					fprintf(out, " S%d%d", api == 2 ? worst : st, of_is_decoding_complete(dec) ? 1 : 0);
 					print_masks(dec, codec, k, n, api == 0);
 				}
-			} else {
+			}
+			if (api == 1 || api == 3 || api == 4) {
 				if (api == 3) {
 					for (i = 0; i < (UINT32)nesi / 2; i++) avail_tab[esis[i]] = recv_tab[esis[i]];
 					LIB_BEGIN(); st = of_set_available_symbols(dec, avail_tab); LIB_END();
